@@ -526,9 +526,7 @@ func (e *scriptEnv) stepRedeploy() {
 	}
 	old := e.node
 	old.Kill()
-	if lib.Known("old-instance-gc") {
-		e.pinned = append(e.pinned, old) // a dead process: its objects are never collected
-	}
+	e.pinned = append(e.pinned, old) // a dead process: its objects are never collected, none of its cleanups runs
 	sameID := e.r.Intn(2) == 0
 	if !sameID {
 		e.opID = fmt.Sprintf("op-%c", 'b'+e.redeploys)
